@@ -45,7 +45,6 @@ def run(ctx):
     mod = fi.module
     ev = rc.new_eval()
     rc.ev = ev
-    # ---- Z4 ----------------------------------------------------------------------
     pts = ev.point("points", True)
     ev.len_map = {"points": sym("n")}
     dx, dy, dz = ev.symbol("dx"), ev.symbol("dy"), ev.symbol("dz")
@@ -54,101 +53,134 @@ def run(ctx):
         raise AnalysisError("zmethod.getPoints: expected one main while loop")
     main = loops[0]
     k = fi.node.body.index(main)
-    for xm, yr, label in ((Obj("none"), Obj("none"), "defaults"), (ev.symbol("x_max"), Vec([ev.symbol("yr0"), ev.symbol("yr1")], "list"), "overrides")):
-        env = {"points": pts, "dx": dx, "dy": dy, "dz": dz, "plot": FALSE, "x_max": xm, "y_range": yr}
-        fr = Frame(ev, fi, 0)
-        # evaluate the prologue up to (not including) the statement that re-binds `points`
-        pro = []
-        for st in fi.node.body[:k]:
-            if isinstance(st, ast.Assign) and any(isinstance(t, ast.Name) and t.id == "points" for t in st.targets):
-                break
-            pro.append(st)
-        try:
-            fr.block(pro, env, TRUE)
-        except Unsupported as e:
-            raise AnalysisError(f"zmethod.getPoints: prologue not modelled: {e}")
-        W, H = env.get("x_width"), env.get("y_height")
-        if label == "defaults":
-            xmax_v, ymax_v, ymin_v = sym("n"), anf.opaque("amax", pts.items[1], array=False), anf.opaque("amin", pts.items[1], array=False)
-        else:
-            # a truthy override is used as is (x_max = x_max if x_max else len(points))
-            xmax_v, ymax_v, ymin_v = sym("x_max"), sym("yr0"), sym("yr1")
-        want_W = anf.f_minmax("max", [C(1), anf.opaque("int", xmax_v * dx, array=False)])
-        want_H = (ymax_v - ymin_v) * dy
-        okW = any(isinstance(v, Rat) and v.equals(want_W) for _g, v in cases_of(W)) if W is not None else False
-        if label == "overrides" and isinstance(W, PW):
-            # the override is used when truthy, the default otherwise
-            okW = all((isinstance(v, Rat) and (v.equals(want_W) or v.equals(anf.f_minmax("max", [C(1), anf.opaque("int", sym("n") * dx, array=False)])))) for _g, v in cases_of(W))
-        okH = isinstance(H, Rat) and H.equals(want_H)
-        if okW and okH:
-            res.ok("Z4", f"zmethod.getPoints[{label}]", f"W == max(1, int({xmax_v}*dx)); H == ({_short(ymax_v, 30)} - {_short(ymin_v, 30)})*dy")
-        else:
-            res.violation("Z4", mod, fi.name, fi.node, f"[{label}] the separation widths are not W = max(1, int(x_max*dx)) and H = (y_max - y_min)*dy",
-                          f"W = {_short(W, 120)}; H = {_short(H, 120)}", f"W = {_short(want_W, 80)}; H = {_short(want_H, 80)}", construct=f"widths {label}")
-    # ---- Z1: exclusion sites --------------------------------------------------------
+    # the prologue up to (not including) the statement that re-binds `points`
+    pro = []
+    for st in fi.node.body[:k]:
+        if isinstance(st, ast.Assign) and any(isinstance(t, ast.Name) and t.id == "points" for t in st.targets):
+            break
+        pro.append(st)
+    # exclusion sites: points = points[<mask>] inside the main loop
     sites = []
     for st in ast.walk(main):
         if isinstance(st, ast.Assign) and len(st.targets) == 1 and isinstance(st.targets[0], ast.Name) and st.targets[0].id == "points" \
                 and isinstance(st.value, ast.Subscript) and isinstance(st.value.value, ast.Name) and st.value.value.id == "points":
             sites.append(st)
-    p3 = Vec([ev.symbol("p.x", True), ev.symbol("p.y", True), ev.symbol("p.z", True)], "point")
-    best = Vec([ev.symbol("b.x"), ev.symbol("b.y"), ev.symbol("b.z")], "point")
-    Wv, Hv = ev.symbol("W"), ev.symbol("H")
-    x, y, bx, by = p3.items[0], p3.items[1], best.items[0], best.items[1]
-    ref_x = g_or(compare("<=", x, bx - Wv), compare(">=", x, bx + Wv))
-    ref_y = g_or(compare("<=", y, by - Hv), compare(">=", y, by + Hv))
-    ref = g_and(ref_x, ref_y)
-    n_ok = 0
-    for st in sites:
-        idx = st.value.slice
-        mask = idx.args[0] if isinstance(idx, ast.Call) and ast.unparse(idx.func) in ("np.where", "numpy.where") and len(idx.args) == 1 else idx
-        env = {"points": p3, "outlier_best": best, "x_width": Wv, "y_height": Hv}
-        try:
-            g = _eval(rc, fi, mask, env)
-        except Unsupported as e:
-            raise AnalysisError(f"zmethod.getPoints: exclusion mask not modelled: {e}")
-        if not isinstance(g, G):
-            res.violation("Z1", mod, fi.name, st, "the points kept after a selection are not chosen by a boolean band mask", _short(g), str(ref), construct="exclusion mask form")
-            continue
-        if g_implies(g, ref):
-            n_ok += 1
-            res.ok("Z1", f"zmethod.getPoints:site@{'single' if n_ok == 1 else 'multi'}", "kept points lie outside the selected point's x band and y band")
-        else:
-            missing = "x band" if g_implies(g, ref_y) else ("y band" if g_implies(g, ref_x) else "x and y bands")
-            res.violation("Z1", mod, fi.name, st,
-                          f"after a knee is selected, points inside its {missing} stay eligible: two reported knees can be closer than (W, H)",
-                          _short(g, 300), _short(ref, 300), construct=f"exclusion mask {ast.unparse(st.value)[:60]}")
     if len(sites) < 2:
         res.error(f"Z1: expected 2 exclusion sites in getPoints, found {len(sites)}")
+    p3 = Vec([ev.symbol("p.x", True), ev.symbol("p.y", True), ev.symbol("p.z", True)], "point")
+    best = Vec([ev.symbol("b.x"), ev.symbol("b.y"), ev.symbol("b.z")], "point")
+    x, y, bx, by = p3.items[0], p3.items[1], best.items[0], best.items[1]
+    for xm, yr, label in ((Obj("none"), Obj("none"), "defaults"), (ev.symbol("x_max"), Vec([ev.symbol("yr0"), ev.symbol("yr1")], "list"), "overrides")):
+        env = {"points": pts, "dx": dx, "dy": dy, "dz": dz, "plot": FALSE, "x_max": xm, "y_range": yr}
+        fr = Frame(ev, fi, 0)
+        try:
+            fr.block(pro, env, TRUE)
+        except Unsupported as e:
+            raise AnalysisError(f"zmethod.getPoints: prologue not modelled: {e}")
+        if label == "defaults":
+            xmax_v, ymax_v, ymin_v = sym("n"), anf.opaque("amax", pts.items[1], array=False), anf.opaque("amin", pts.items[1], array=False)
+        else:
+            xmax_v, ymax_v, ymin_v = sym("x_max"), sym("yr0"), sym("yr1")
+        want_W = anf.f_minmax("max", [C(1), anf.opaque("int", xmax_v * dx, array=False)])
+        want_H = (ymax_v - ymin_v) * dy
+        # Z1 + Z4 together: the masks, evaluated with the prologue's own values for every name they use, must
+        # imply the two bands with exactly W = max(1, int(x_max*dx)) and H = (y_max - y_min)*dy
+        ref_x = g_or(compare("<=", x, bx - want_W), compare(">=", x, bx + want_W))
+        ref_y = g_or(compare("<=", y, by - want_H), compare(">=", y, by + want_H))
+        ref = g_and(ref_x, ref_y)
+        for n_site, st in enumerate(sites, 1):
+            idx = st.value.slice
+            mask = idx.args[0] if isinstance(idx, ast.Call) and ast.unparse(idx.func) in ("np.where", "numpy.where") and len(idx.args) == 1 else idx
+            names = {n.id for n in ast.walk(mask) if isinstance(n, ast.Name)}
+            unknown = sorted(n for n in names if n not in env and n not in ("np", "numpy"))
+            if len(unknown) != 1:
+                raise AnalysisError(f"zmethod.getPoints: exclusion mask uses {unknown}; expected exactly one name for the selected point")
+            menv = {}
+            for nme in names:
+                if nme in env:
+                    v = env[nme]
+                    # a piecewise width (truthy override / default): take the case that applies to this configuration
+                    if isinstance(v, PW):
+                        picks = [c for g_, c in v.cases if (label == "overrides") == ("truthy" in repr(g_) and g_.kind != "not")]
+                        v = picks[0] if picks else v.cases[0][1]
+                    menv[nme] = v
+            menv["points"] = p3
+            menv[unknown[0]] = best
+            try:
+                g = _eval(rc, fi, mask, menv)
+            except Unsupported as e:
+                raise AnalysisError(f"zmethod.getPoints: exclusion mask not modelled: {e}")
+            if not isinstance(g, G):
+                res.violation("Z1", mod, fi.name, st, "the points kept after a selection are not chosen by a boolean band mask", _short(g), str(ref), construct="exclusion mask form")
+                continue
+            if g_implies(g, ref):
+                res.ok("Z1", f"zmethod.getPoints:site{n_site}[{label}]",
+                       f"kept points lie outside the x band (W = max(1, int({xmax_v}*dx))) and the y band (H = ({_short(ymax_v, 24)} - {_short(ymin_v, 24)})*dy) of the selected point")
+                res.ok("Z4", f"zmethod.getPoints:site{n_site}[{label}]", "band widths are W = max(1, int(x_max*dx)) and H = (y_max - y_min)*dy")
+            else:
+                # which part fails: the band structure (checked with the code's own widths) or the widths themselves?
+                scal = [v for nme, v in menv.items() if isinstance(v, Rat) and not v.is_array() and nme not in ("points", unknown[0])]
+                structure_ok = False
+                for wc in scal:
+                    for hc in scal:
+                        rx = g_or(compare("<=", x, bx - wc), compare(">=", x, bx + wc))
+                        ry = g_or(compare("<=", y, by - hc), compare(">=", y, by + hc))
+                        if g_implies(g, g_and(rx, ry)):
+                            structure_ok = True
+                            found_w, found_h = wc, hc
+                if structure_ok:
+                    res.violation("Z4", mod, fi.name, st,
+                                  f"[{label}] the separation widths are not W = max(1, int(x_max*dx)) and H = (y_max - y_min)*dy",
+                                  f"W = {_short(found_w, 100)}; H = {_short(found_h, 100)}", f"W = {_short(want_W, 80)}; H = {_short(want_H, 80)}", construct=f"widths {label}")
+                else:
+                    missing = "x band" if g_implies(g, ref_y) else ("y band" if g_implies(g, ref_x) else "x and y bands")
+                    res.violation("Z1", mod, fi.name, st,
+                                  f"[{label}] after a knee is selected, points inside its {missing} stay eligible: two reported knees can be closer than (W, H)",
+                                  _short(g, 300), _short(ref, 300), construct=f"exclusion mask site{n_site}")
     # ---- Z2: selection guard ------------------------------------------------------------
-    sel_sites = []
-    for st in ast.walk(main):
-        if isinstance(st, ast.If) and any(isinstance(b, ast.Assign) and isinstance(b.targets[0], ast.Name) and b.targets[0].id == "outlier_points" for b in st.body):
-            sel_sites.append(st)
     sel_ok = 0
-    for st in sel_sites:
+    n_sel = 0
+    Hv = ev.symbol("H")
+    for st in ast.walk(main):
+        if not (isinstance(st, ast.If) and any(b in sites for b in st.body)):
+            continue
+        n_sel += 1
+        # the collection of selected points: the name that receives np.append(<itself>, [[best[0], best[1]]]) in this body
+        sel_names = [b.targets[0].id for b in st.body if isinstance(b, ast.Assign) and isinstance(b.targets[0], ast.Name) and isinstance(b.value, ast.Call)
+                     and ast.unparse(b.value.func) in ("np.append", "numpy.append") and b.value.args and isinstance(b.value.args[0], ast.Name)
+                     and b.value.args[0].id == b.targets[0].id]
         t = st.test
         good = False
-        if isinstance(t, ast.Call) and isinstance(t.func, ast.Name) and t.func.id == "all" and len(t.args) == 1 and isinstance(t.args[0], ast.GeneratorExp):
+        if len(sel_names) == 1 and isinstance(t, ast.Call) and isinstance(t.func, ast.Name) and t.func.id == "all" and len(t.args) == 1 and isinstance(t.args[0], ast.GeneratorExp):
             gen = t.args[0]
             if len(gen.generators) == 1 and isinstance(gen.generators[0].target, ast.Name) and not gen.generators[0].ifs \
-                    and ast.unparse(gen.generators[0].iter).replace(" ", "") == "outlier_points[:,1]":
+                    and ast.unparse(gen.generators[0].iter).replace(" ", "") == f"{sel_names[0]}[:,1]":
                 iv = gen.generators[0].target.id
                 yi = ev.symbol("y_sel")
-                env = {"outlier_best": best, "y_height": Hv, iv: yi}
-                g = _eval(rc, fi, gen.elt, env)
-                want_a = canon_sign(anf.f_abs(by - yi) - Hv, OPS[">="])
-                want_b = canon_sign(anf.f_abs(by - yi) - Hv, OPS[">"])
-                if isinstance(g, G) and (g_equiv(g, want_a) or g_equiv(g, want_b)):
-                    good = True
+                names = {n.id for n in ast.walk(gen.elt) if isinstance(n, ast.Name)} - {iv, "abs"}
+                # the selected point and the height: the height is the prologue scalar, the point the other name
+                fr = Frame(ev, fi, 0)
+                env = {"points": pts, "dx": dx, "dy": dy, "dz": dz, "plot": FALSE, "x_max": Obj("none"), "y_range": Obj("none")}
+                fr.block(pro, env, TRUE)
+                others = sorted(n for n in names if n not in env)
+                if len(others) == 1:
+                    genv = {n: env[n] for n in names if n in env}
+                    genv[others[0]] = best
+                    genv[iv] = yi
+                    g = _eval(rc, fi, gen.elt, genv)
+                    H0 = (anf.opaque("amax", pts.items[1], array=False) - anf.opaque("amin", pts.items[1], array=False)) * dy
+                    want_a = canon_sign(anf.f_abs(by - yi) - H0, OPS[">="])
+                    want_b = canon_sign(anf.f_abs(by - yi) - H0, OPS[">"])
+                    if isinstance(g, G) and (g_equiv(g, want_a) or g_equiv(g, want_b)):
+                        good = True
         if good:
             sel_ok += 1
             res.ok("Z2", f"zmethod.getPoints:select#{sel_ok}", "selected only if |by - y| >= H for every selected y")
         else:
             res.violation("Z2", mod, fi.name, st, "a candidate can be selected although it is closer than H in y to an already selected knee",
-                          ast.unparse(t)[:160], "all(abs(outlier_best[1] - i) >= y_height for i in outlier_points[:, 1])", construct="selection guard")
-    if len(sel_sites) < 2:
-        res.error(f"Z2: expected 2 selection sites in getPoints, found {len(sel_sites)}")
+                          ast.unparse(t)[:160], "all(abs(best.y - y_i) >= H for y_i in <selected>[:, 1])", construct="selection guard")
+    if n_sel < 2:
+        res.error(f"Z2: expected 2 selection sites in getPoints, found {n_sel}")
     # ---- Z3: final sweep --------------------------------------------------------------------
     post = fi.node.body[k + 1:]
     sweeps = [st for st in post if isinstance(st, ast.For)]
@@ -156,40 +188,44 @@ def run(ctx):
         res.error("Z3: final sweep loop not found")
     else:
         sw = sweeps[0]
-        # keys ascending
-        keys_ok = False
-        for st in post:
-            if isinstance(st, ast.Assign) and isinstance(st.targets[0], ast.Name) and isinstance(sw.iter, ast.Name) and st.targets[0].id == sw.iter.id:
-                txt = ast.unparse(st.value).replace(" ", "")
-                if "sorted(outlier_points.keys())" in txt and "reverse" not in txt:
-                    keys_ok = True
-        kv = ev.symbol("h")      # height of the current key
-        mn = ev.symbol("outlier_min_mr")
         ok = False
-        if len(sw.body) == 1 and isinstance(sw.body[0], ast.If):
+        keys_ok = False
+        if len(sw.body) == 1 and isinstance(sw.body[0], ast.If) and isinstance(sw.target, ast.Name):
             br = sw.body[0]
-            env = {"outlier_min_mr": mn}
-            # replace outlier_points[k] by the symbol h
-            import copy
+            dels_b = [b for b in br.body if isinstance(b, ast.Delete)]
+            dels_e = [b for b in br.orelse if isinstance(b, ast.Delete)]
+            del_branch, keep_branch, positive = (br.body, br.orelse, True) if dels_b else (br.orelse, br.body, False)
+            dels = dels_b or dels_e
+            if len(dels) == 1 and len(del_branch) == 1 and isinstance(dels[0].targets[0], ast.Subscript) and isinstance(dels[0].targets[0].value, ast.Name):
+                dname = dels[0].targets[0].value.id
+                kname = sw.target.id
+                upd = [b for b in keep_branch if isinstance(b, ast.Assign) and isinstance(b.targets[0], ast.Name)
+                       and ast.unparse(b.value).replace(" ", "") == f"{dname}[{kname}]"]
+                if len(upd) == 1 and len(keep_branch) == 1:
+                    mname = upd[0].targets[0].id
+                    # keys ascending: the iterated name is sorted(<dict>.keys())
+                    for st in post:
+                        if isinstance(st, ast.Assign) and isinstance(st.targets[0], ast.Name) and isinstance(sw.iter, ast.Name) and st.targets[0].id == sw.iter.id:
+                            txt = ast.unparse(st.value).replace(" ", "")
+                            if f"sorted({dname}.keys())" in txt and "reverse" not in txt:
+                                keys_ok = True
+                    import copy
 
-            class Sub(ast.NodeTransformer):
-                def visit_Subscript(self, node):
-                    if isinstance(node.value, ast.Name) and node.value.id == "outlier_points":
-                        return ast.copy_location(ast.Name(id="__h", ctx=ast.Load()), node)
-                    return self.generic_visit(node)
-            test = keep(Sub().visit(copy.deepcopy(br.test)))
-            ast.fix_missing_locations(test)
-            for n in ast.walk(test):
-                mod.node_scope[id(n)] = fi.scope
-            env["__h"] = kv
-            g = _eval(rc, fi, test, env)
-            dels = [b for b in br.body if isinstance(b, ast.Delete)]
-            upd = [b for b in br.orelse if isinstance(b, ast.Assign) and isinstance(b.targets[0], ast.Name) and b.targets[0].id == "outlier_min_mr"
-                   and "outlier_points" in ast.unparse(b.value)]
-            want_a = canon_sign(kv - mn, OPS[">"])
-            want_b = canon_sign(kv - mn, OPS[">="])
-            if isinstance(g, G) and (g_equiv(g, want_a) or g_equiv(g, want_b)) and len(dels) == 1 and len(br.body) == 1 and len(upd) == 1 and len(br.orelse) == 1:
-                ok = True
+                    class Sub(ast.NodeTransformer):
+                        def visit_Subscript(self, node):
+                            if isinstance(node.value, ast.Name) and node.value.id == dname:
+                                return ast.copy_location(ast.Name(id="__h", ctx=ast.Load()), node)
+                            return self.generic_visit(node)
+                    test = keep(Sub().visit(copy.deepcopy(br.test)))
+                    ast.fix_missing_locations(test)
+                    for n in ast.walk(test):
+                        mod.node_scope[id(n)] = fi.scope
+                    kv, mn = ev.symbol("h"), ev.symbol("min!")
+                    g = _eval(rc, fi, test, {"__h": kv, mname: mn})
+                    if isinstance(g, G):
+                        gd = g if positive else g_not(g)
+                        if g_equiv(gd, canon_sign(kv - mn, OPS[">"])) or g_equiv(gd, canon_sign(kv - mn, OPS[">="])):
+                            ok = True
         if ok and keys_ok:
             res.ok("Z3", "zmethod.getPoints:sweep", "ascending x; delete iff height > running minimum; minimum <- height on keep => heights non-increasing")
         else:
@@ -231,4 +267,4 @@ def run(ctx):
     res.assumptions += ["strictly increasing non-negative integer x, y in [0, 1], dx, dy, dz > 0", "W, H >= 0"]
     res.not_decided += ["termination and the iteration bound of the selection loop (needs: points_added > 0 => len(points) decreases - a fact about numpy masks on runtime data)",
                         "x-separation among same-round candidates", "validity for non-integer x"]
-    res.require_instances("C10 obligations", len(res.obligations), 9)
+    res.require_instances("C10 obligations", len(res.obligations), 12)
